@@ -394,7 +394,7 @@ theorem postErr_false_iff (mc : MCfg) (c : Ctl) (apps : List App) (hv : Valid mc
     rcases hreason with h | ⟨h, _⟩
     · exact h
     · exact absurd h hne
-  have hnm : NamedInv m unl := hnamed hne (by omega)
+  have hnm : NamedInv m unl := hnamed.1 hne (by omega)
   unfold postErrCore
   cases hfind : wantedBy apps x y p with
   | none =>
@@ -533,6 +533,51 @@ theorem load_error_iff_preclean_needed (mc : MCfg) (c : Ctl) (apps : List App) (
     have := load_error_exact mc c apps hv s hpre unl herr x y p
     rw [hxyp] at this
     exact absurd this (by simp)
+
+/-! ### re-sends without `PreClean`: only to cores that do not hold their binary -/
+
+/-- a map none of whose cores is in the wait state satisfies the run-time oracle `resendOnlyOK` for
+each of its binaries: it names only cores requested for that binary, none of which is loaded -/
+theorem namedInv_resendOnly (mc : MCfg) (c : Ctl) (apps : List App) (m : MState) (l : List App) (a u : App)
+    (hu : u ∈ l) (hua : SubApp u a) (hn : NamedInv m l) :
+    resendOnlyOK mc.chips a u.targets false c.appId m.core = true := by
+  simp only [resendOnlyOK, List.all_eq_true, Bool.or_eq_true, Bool.not_eq_true', Bool.and_eq_true,
+    Bool.false_or]
+  rintro ⟨x, y, p⟩ _
+  cases hw : wants { a with targets := u.targets } x y p with
+  | false => exact Or.inl rfl
+  | true =>
+    have hwu : wants u x y p = true := hw
+    refine Or.inr ⟨hua.2.2 x y p hwu, ?_⟩
+    have hst := hn u hu x y p hwu
+    cases hl : loaded a c.appId (m.core x y p) with
+    | false => rfl
+    | true =>
+      simp only [loaded, beq_iff_eq] at hl
+      rw [hl] at hst
+      exact absurd rfl hst
+
+/-- **"re-send only to the cores still missing" holds whatever was on the machine before the call**
+(no `PreClean`): every map `load_application` hands to `flood_fill_aplx` is the requested map itself
+(the first attempt) or a part of it none of whose cores was in the wait state - hence none of whose
+cores held its binary - in a machine state reached during this call.  A core already loaded by an
+earlier attempt or an earlier call (same binary, same app id, waiting) is never sent the binary
+again.  (`resendOnlyOK`, the oracle the check evaluates on every fill, follows by
+`namedInv_resendOnly`.) -/
+theorem resend_only_without_preclean (mc : MCfg) (c : Ctl) (apps : List App) (hv : Valid mc c apps) (s : Sim) :
+    ∀ l ∈ (loadApplication mc c s apps).sent, l = apps ∨ SentW c apps s.m l := by
+  obtain ⟨_, _, _, _, hs⟩ := loadLoop_weak mc c apps hv s.m (c.nTries + 1) s 0 apps [] (liw_init mc c apps s)
+  generalize hr : loadLoop mc c (coreCount apps) (c.nTries + 1) s 0 apps [] = r at hs
+  have hsent : (loadApplication mc c s apps).sent = r.2.2 := by
+    simp only [loadApplication, hr]; split
+    · rfl
+    · split <;> rfl
+  rw [hsent]
+  intro l hl
+  rcases hs l hl with h | h | h
+  · exact absurd h (by simp)
+  · exact Or.inl h.2
+  · exact Or.inr h
 
 /-! ### instances: the two known findings are instances of `staleMasks`, by the two clauses -/
 
